@@ -870,16 +870,106 @@ def translate():
 
 
 # ----------------------------------------------------------------------------------------
+# canary: the compiled code runs with bounds checks off; a broken index computation can take the interpreter down.
+# A sample of every generator is therefore run first in a forked child; if the child is killed, the case it died on is
+# the failing input and nothing else of this run calls the implementation in-process.
+# ----------------------------------------------------------------------------------------
+def _run_forked(cases):
+    """None when the child ran all cases, else (index of the case it died on, signal or exit status)."""
+    r, w = os.pipe()
+    pid = os.fork()
+    if pid == 0:
+        code = 0
+        try:
+            os.close(r)
+            for k, case in enumerate(cases):
+                os.write(w, b'%d\n' % k)
+                try:
+                    nl = _build(case, _system(case), case.get('init') or 20, case.get('delta') or 10, k % 2)
+                    _rows(nl)
+                except Exception:  # noqa  (exceptions are handled by the in-process run)
+                    pass
+            os.write(w, b'done\n')
+        except BaseException:  # noqa
+            code = 3
+        finally:
+            os._exit(code)
+    os.close(w)
+    data = b''
+    while True:
+        chunk = os.read(r, 65536)
+        if not chunk:
+            break
+        data += chunk
+    os.close(r)
+    _, status = os.waitpid(pid, 0)
+    lines = data.decode().split()
+    if lines and lines[-1] == 'done' and os.WIFEXITED(status) and os.WEXITSTATUS(status) == 0:
+        return None
+    idx = [int(x) for x in lines if x != 'done']
+    sig = os.WTERMSIG(status) if os.WIFSIGNALED(status) else f'exit {os.WEXITSTATUS(status)}'
+    return (idx[-1] if idx else 0), sig
+
+
+def canary(ctx):
+    """True when the implementation killed the child (violation recorded): do not call it in-process."""
+    if '_canary' in ctx.extra:
+        return ctx.extra['_canary']
+    rng = random.Random(ctx.seed * 104729 + 11)
+    cases = [c for _, c in load_corpus()]
+    for gen in (gen_general, gen_grid, gen_edges, gen_hunt, gen_shear, gen_dense, gen_seq_start):
+        cases += [gen(rng, it) for it in range(12 if gen is gen_dense else 40)]
+    res = _run_forked(cases)
+    ctx.extra['_canary'] = res is not None
+    ctx.extra['canary_cases'] = len(cases)
+    if res is not None:
+        k, sig = res
+        case = cases[k]
+        ctx.violate('crash', f'building the neighbor list terminates the interpreter (signal {sig}): natoms='
+                    f'{len(case["pos"])}, pbc={case["pbc"]}, cutoff={case["cutoff"]!r}, vects={case["vects"]}',
+                    _payload(case, stage='crash'))
+    return ctx.extra['_canary']
+
+
+# ----------------------------------------------------------------------------------------
 # correspondence
 # ----------------------------------------------------------------------------------------
-def _roundtrip(ctx, case, nl, rows, tmpdir, tag):
-    """dump -> text compared with the model's render; load -> rows compared with the model's parse."""
+def _roundtrip_real(ctx, case, nl, rows, tmpdir, tag, it=0):
+    """the round-trip clause on the real code: dump -> load (from the path, or from the text / an open binary file)
+    gives the same lists and coordination numbers. Returns the raw file content, or None after a violation."""
     import atomman as am
-    n = len(rows)
     path = os.path.join(tmpdir, 'nl.txt')
-    nl.dump(path)
-    with open(path, 'rb') as f:
-        raw = f.read()
+    how = ('path', 'content', 'file')[it % 3]
+    try:
+        nl.dump(path)
+        with open(path, 'rb') as f:
+            raw = f.read()
+        if how == 'path':
+            back = am.NeighborList(model=path)
+        elif how == 'content':
+            back = am.NeighborList(model=raw.decode('utf-8'))
+        else:
+            with open(path, 'rb') as f:
+                back = am.NeighborList(model=f)
+        rows_back = _rows(back)
+        coord_back = [int(c) for c in back.coord]
+    except Exception as e:  # noqa
+        ctx.violate('roundtrip-raises', f'NeighborList.dump / NeighborList(model=<{how}>) raised {type(e).__name__}: {e} '
+                    f'for the lists {rows} ({tag})', _payload(case, stage='roundtrip', how=how))
+        return None
+    if rows_back != rows or coord_back != [len(r) for r in rows]:
+        ctx.violate('roundtrip', f'neighbor list read back from its own dump (model=<{how}>) differs ({tag}): wrote '
+                    f'{rows}, read {rows_back} coord {coord_back}', _payload(case, stage='roundtrip', how=how))
+        return None
+    return raw
+
+
+def _roundtrip(ctx, case, nl, rows, tmpdir, tag, it=0):
+    """dump -> text compared with the model's render; load -> rows compared with the model's parse."""
+    n = len(rows)
+    raw = _roundtrip_real(ctx, case, nl, rows, tmpdir, tag, it)
+    if raw is None:
+        return
     text = raw.decode('utf-8')
     out = ctx.driver.ask(f'dump {n} ' + _flat_rows(rows))
     model_text = ''.join(chr(int(t)) for t in out.split()) if not out.startswith('err') else out
@@ -887,20 +977,13 @@ def _roundtrip(ctx, case, nl, rows, tmpdir, tag):
         ctx.disagree('dump', f'dumped file differs from the model rendering: {text[:200]!r} vs {model_text[:200]!r}',
                      _payload(case, stage='dump'))
         return
-    back = am.NeighborList(model=path)
-    rows_back = _rows(back)
-    coord_back = [int(c) for c in back.coord]
-    if rows_back != rows or coord_back != [len(r) for r in rows]:
-        ctx.violate('roundtrip', f'neighbor list read back from its own dump differs ({tag}): wrote {rows}, '
-                    f'read {rows_back} coord {coord_back}', _payload(case, stage='roundtrip'))
-        return
     out = ctx.driver.ask('load ' + ' '.join(str(b) for b in raw))
     if out.startswith('err'):
         ctx.disagree('load', f'model refuses the dumped text: {out}', _payload(case, stage='load'))
         return
     nums = [int(t) for t in out.split()[1:]]
-    if _parse_rows(nums[1:], nums[0]) != rows_back:
-        ctx.disagree('load', f'model parse of the dumped text gives {nums}, implementation {rows_back}',
+    if _parse_rows(nums[1:], nums[0]) != rows:
+        ctx.disagree('load', f'model parse of the dumped text gives {nums}, implementation {rows}',
                      _payload(case, stage='load'))
 
 
@@ -955,11 +1038,13 @@ def _correspond_case(ctx, case, name, tmpdir, roundtrip):
         ctx.disagree('capacity', f'final storage width {cap} != model {mcap} (initialsize {init}, deltasize {delta}, '
                      f'max coord {max(coord or [0])})', _payload(case))
     if roundtrip:
-        _roundtrip(ctx, case, nl, rows, tmpdir, name)
+        _roundtrip(ctx, case, nl, rows, tmpdir, name, n + init)
 
 
 def correspond(ctx):
     rng = ctx.rng
+    if canary(ctx):
+        return
     with tempfile.TemporaryDirectory(prefix='c03_') as tmpdir:
         for name, case in load_corpus():
             _correspond_case(ctx, case, 'corpus:' + name, tmpdir, True)
@@ -1332,7 +1417,7 @@ def run_sequence(ctx, rng, it, mode, tmpdir, script=None):
 # ----------------------------------------------------------------------------------------
 # search: the property's clauses on the real code
 # ----------------------------------------------------------------------------------------
-def _search_case(ctx, case, kind, name, full):
+def _search_case(ctx, case, kind, name, full, tmpdir=None):
     n = len(case['pos'])
     init, delta = case['init'] or 20, case['delta'] or 10
     try:
@@ -1353,6 +1438,9 @@ def _search_case(ctx, case, kind, name, full):
         ctx.violate(key, what + f' [{kind}; natoms={n}, pbc={case["pbc"]}, initialsize={init}, deltasize={delta}]',
                     _payload(case))
         return
+    if full and tmpdir is not None and n <= 60:
+        if _roundtrip_real(ctx, case, nl, rows, tmpdir, kind, n + init) is None:
+            return
     if full:
         # independence of the storage parameters, and the two public entry points
         alt = [(1, 1), (25, 25), (None, None)][(n + init) % 3]
@@ -1396,19 +1484,22 @@ def _dmag_crosscheck(ctx, case, system, rows, cls):
 
 def search(ctx, broken):
     rng = random.Random(ctx.seed * 7919 + 3)
+    if canary(ctx):
+        return
     for name, case in load_corpus():
         _search_case(ctx, case, 'corpus', name, True)
     mult = 3 if broken else 1
     plan = [('dense', gen_dense, ctx.n(40, 1500) * mult), ('shear', gen_shear, ctx.n(600, 20000) * mult),
             ('hunt', gen_hunt, ctx.n(5000, 120000) * mult), ('general', gen_general, ctx.n(250, 8000) * mult),
             ('grid', gen_grid, ctx.n(250, 8000) * mult), ('edges', gen_edges, ctx.n(100, 3000) * mult)]
-    for kind, gen, count in plan:
-        for it in range(count):
-            case = gen(rng, it)
-            _search_case(ctx, case, kind, kind, full=(kind != 'hunt' or it % 8 == 0))
-            if len(ctx.violations) >= 6:
-                return
     with tempfile.TemporaryDirectory(prefix='c03_') as tmpdir:
+        for kind, gen, count in plan:
+            for it in range(count):
+                case = gen(rng, it)
+                _search_case(ctx, case, kind, kind, full=(kind != 'hunt' or it % 8 == 0),
+                             tmpdir=tmpdir if it % 3 == 0 else None)
+                if len(ctx.violations) >= 6:
+                    return
         for it in range(ctx.n(150, 5000) * mult):
             run_sequence(ctx, rng, it, 'oracle', tmpdir)
             if len(ctx.violations) >= 6:
@@ -1447,6 +1538,10 @@ def replay(ctx, payload):
     if not case:
         search(ctx, True)
         return
+    res = _run_forked([case])
+    if res is not None:
+        ctx.violate('crash', f'building the neighbor list terminates the interpreter (signal {res[1]})', r)
+        return
     system = _system(case)
     nl = _build(case, system, case.get('init') or 20, case.get('delta') or 10, 0)
     rows = _rows(nl)
@@ -1462,12 +1557,7 @@ def replay(ctx, payload):
             ctx.violate('storage', f'result depends on the storage sizes: {rows} vs {_rows(nl2)}', r)
     if r.get('stage') == 'roundtrip':
         with tempfile.TemporaryDirectory(prefix='c03_') as tmpdir:
-            import atomman as am
-            path = os.path.join(tmpdir, 'nl.txt')
-            nl.dump(path)
-            back = am.NeighborList(model=path)
-            if _rows(back) != rows:
-                ctx.violate('roundtrip', f'read back {_rows(back)}, wrote {rows}', r)
+            _roundtrip_real(ctx, case, nl, rows, tmpdir, 'replay', {'path': 0, 'content': 1, 'file': 2}.get(r.get('how'), 0))
     if ctx.driver is not None:
         out = ctx.driver.ask(_line(case, case.get('init') or 20, case.get('delta') or 10))
         print('model:', out[:400])
